@@ -102,7 +102,11 @@ def _build_dataset(r):
         from contracts._defgen import build_definition
         d = tempfile.mkdtemp(prefix='verif_xarr_')
         paths, raws = [], []
-        cnt = 0
+        # sequence counters: consecutive from a start near the 14-bit roll-over, or arbitrary (repeats, out of order) -
+        # rows follow STREAM order, whatever the counters say
+        rr0 = random.Random(r['files'][0][0][2] if r['files'] and r['files'][0] else 0)
+        cnt = rr0.choice([0, 16380, 16383, 5])
+        arbitrary = rr0.random() < 0.4
         for i, pk in enumerate(r['files']):
             p = os.path.join(d, f"f{i}.bin")
             blob = b''
@@ -110,7 +114,7 @@ def _build_dataset(r):
                 body = _mk_body(style, seed, nbytes)
                 word = (a << 32) | (3 << 30) | ((cnt % 16384) << 16) | (len(body) - 1)
                 raw = word.to_bytes(6, 'big') + body
-                cnt += 1
+                cnt = rr0.randint(0, 16383) if arbitrary else cnt + 1
                 blob += raw
                 raws.append(raw)
             with open(p, 'wb') as fh:
